@@ -10,8 +10,10 @@ import (
 	"encoding/hex"
 	"fmt"
 	"os"
+	"runtime/debug"
 	"strconv"
 	"strings"
+	"sync/atomic"
 	"testing"
 	"time"
 )
@@ -81,6 +83,9 @@ func c07Arg(f []string, k int) []byte {
 
 var c07Hangs int
 
+// set when a call made through c07Returns panicked; the enclosing case is then reported as "panic"
+var c07PanicSeen atomic.Bool
+
 // c07Guard runs one case under recover() and a watchdog.  A hung call cannot be killed, so after three
 // hangs the remaining cases are not run (each would cost the full watchdog time on a busy CPU).
 func c07Guard(fn func() string) string { return c07GuardT(2*time.Second, fn) }
@@ -90,7 +95,14 @@ func c07Returns(d time.Duration, fn func()) bool {
 	done := make(chan struct{})
 	go func() {
 		defer close(done)
-		defer func() { recover() }()
+		defer func() {
+			if r := recover(); r != nil {
+				c07PanicSeen.Store(true)
+				if os.Getenv("VERIF_C07_DEBUG") != "" {
+					fmt.Fprintf(os.Stderr, "c07 panic: %v\n%s\n", r, debug.Stack())
+				}
+			}
+		}()
 		fn()
 	}()
 	tm := time.NewTimer(d)
@@ -108,13 +120,18 @@ func c07GuardT(d time.Duration, fn func() string) string {
 		return "skipped-after-3-hangs"
 	}
 	ch := make(chan string, 1)
+	c07PanicSeen.Store(false)
 	go func() {
 		defer func() {
 			if r := recover(); r != nil {
 				ch <- "panic"
 			}
 		}()
-		ch <- fn()
+		r := fn()
+		if c07PanicSeen.Load() {
+			r = "panic"
+		}
+		ch <- r
 	}()
 	tm := time.NewTimer(d)
 	defer tm.Stop()
